@@ -354,7 +354,8 @@ def specs(tier, seed):
     out = []
     if tier == "quick":
         a, b = v[seed % 3], v[(seed + 1) % 3]
-        out.append(("T1", dict(a, shape="T1", capital=64.0), 2, 3))
+        # (the longest histories run with bid/offer accounting on: same-date close / update / trade sequences)
+        out.append(("T1", dict(v[1 + seed % 2], shape="T1", capital=64.0), 2, 3))
         out.append(("T2", dict(b, shape="T2", capital=64.0, prefund=[[[], "s1", 24.0], [[], "s2", 8.0]]), 2, 2))
         out.append(("F1", dict(b, shape="F1", capital=64.0), 1, 2))
         out.append(("T3", dict(a, shape="T3", capital=64.0, prefund=[[[], "s1", 32.0], [["s1"], "s11", 16.0]]), 1, 2))
